@@ -307,7 +307,9 @@ pub struct Baseline {
     pub image: Vec<u8>,
     pub stats: (usize, usize),
     /// results[(method, hay)]
-    pub results: std::collections::HashMap<(Method, usize), Vec<Mt>>,
+    pub results: std::collections::HashMap<(Method, usize, Via), Vec<Mt>>,
+    /// an automaton built once from the spec, never searched by the threads (reference for `==`)
+    pub reference: Option<Box<dyn DynPma>>,
     pub build_err: Option<String>,
 }
 
@@ -320,6 +322,7 @@ pub fn baseline(w: &Workload) -> Baseline {
             image: vec![],
             stats: (0, 0),
             results: Default::default(),
+            reference: None,
             build_err: Some("the single-threaded run panicked".into()),
         },
     }
@@ -330,6 +333,7 @@ fn baseline_inner(w: &Workload) -> Baseline {
         image: vec![],
         stats: (0, 0),
         results: Default::default(),
+        reference: None,
         build_err: None,
     };
     match pma::build(&w.spec) {
@@ -337,6 +341,7 @@ fn baseline_inner(w: &Workload) -> Baseline {
         Ok(p) => {
             b.image = p.serialize();
             b.stats = p.stats();
+            b.reference = Some(p.clone_box());
             for th in &w.threads {
                 for op in th {
                     let lanes: Vec<&Lane> = match op {
@@ -345,9 +350,12 @@ fn baseline_inner(w: &Workload) -> Baseline {
                         _ => vec![],
                     };
                     for l in lanes {
-                        b.results
-                            .entry((l.method, l.hay))
-                            .or_insert_with(|| pma::search(&*p, l.method, &w.hays[l.hay]));
+                        // the single-threaded result of the SAME entry point: a sequential
+                        // difference between slice and byte-iterator searches is C12's business
+                        b.results.entry((l.method, l.hay, l.via)).or_insert_with(|| match l.via {
+                            Via::Slice => pma::search(&*p, l.method, &w.hays[l.hay]),
+                            Via::Iter => p.open_iter(l.method, Box::new(w.hays[l.hay].clone().into_iter())).collect(),
+                        });
                     }
                 }
             }
@@ -367,7 +375,7 @@ fn run_op(
 ) {
     match op {
         Op::Search(l) => {
-            let want = &base.results[&(l.method, l.hay)];
+            let want = &base.results[&(l.method, l.hay, l.via)];
             set_act(Act::Search(l.method, !want.is_empty()));
             let got: Vec<Mt> = open_lane(&***p, hays, l).collect();
             set_act(Act::Idle);
@@ -380,7 +388,7 @@ fn run_op(
         }
         Op::Multi { lanes, order } => {
             TR.with(|t| t.borrow_mut().c.p_multi_iter_ops += 1);
-            let any = lanes.iter().any(|l| !base.results[&(l.method, l.hay)].is_empty());
+            let any = lanes.iter().any(|l| !base.results[&(l.method, l.hay, l.via)].is_empty());
             set_act(Act::Search(lanes[0].method, any));
             let mut its: Vec<Option<pma::MatchIter>> =
                 lanes.iter().map(|l| Some(open_lane(&***p, hays, l))).collect();
@@ -401,7 +409,7 @@ fn run_op(
             }
             set_act(Act::Idle);
             for (li, l) in lanes.iter().enumerate() {
-                let want = &base.results[&(l.method, l.hay)];
+                let want = &base.results[&(l.method, l.hay, l.via)];
                 if &got[li] != want {
                     fail(
                         "search-differs",
@@ -434,10 +442,14 @@ fn run_op(
         Op::Stats => {
             set_act(Act::Other);
             yield_hook();
+            let s0 = p.stats();
+            yield_hook();
             let s = p.stats();
             set_act(Act::Idle);
-            if s != base.stats {
-                fail("image-changed", format!("thread {t} op {i}: statistics {:?} differ from {:?}", s, base.stats));
+            // statistics of one automaton do not change under searches (nothing is said about a
+            // clone or a restored automaton reporting the same numbers as the built one)
+            if s != s0 {
+                fail("image-changed", format!("thread {t} op {i}: statistics changed from {:?} to {:?} while other threads searched", s0, s));
             }
         }
         Op::BuildAgain | Op::BuildPermuted { .. } => {
@@ -453,7 +465,7 @@ fn run_op(
                 }
             };
             set_act(Act::Build);
-            let r = pma::build_ordered(&w.spec, &order, yield_hook);
+            let r = pma::build_ordered_opt(&w.spec, &order, yield_hook, (t + i) % 2 == 1);
             set_act(Act::Idle);
             match r {
                 Err(e) => fail(class, format!("thread {t} op {i}: build failed ({e}) although the single-threaded build succeeded")),
@@ -463,8 +475,10 @@ fn run_op(
                         let at = img.iter().zip(&base.image).position(|(a, b)| a != b);
                         fail(class, format!("thread {t} op {i}: serialised bytes differ (lengths {} vs {}, first difference at {:?}); order {:?}", img.len(), base.image.len(), at, order));
                     }
-                    if !q.same(&***p) {
-                        fail(class, format!("thread {t} op {i}: rebuilt automaton != shared automaton although the bytes agree"));
+                    if let Some(r) = &base.reference {
+                        if !q.same(&**r) {
+                            fail(class, format!("thread {t} op {i}: rebuilt automaton != automaton built before from the same input although the bytes agree"));
+                        }
                     }
                 }
             }
